@@ -33,7 +33,7 @@ ID = "C17"
 LEAN_TARGETS = ["RV.C17.Props", "RV.C17.Audit"]
 AUDIT = "RV/C17/Audit.lean"
 DRIVER = "drv_c17"
-CASES = {"quick": 700, "thorough": 25000, "search": 12000}
+CASES = {"quick": 2500, "thorough": 60000, "search": 12000}
 TABLES = c17_tables.tables_text
 RULE = ("random histories (3-18 ops) of bind (override x replace, None/empty/underscore/numbered prefixes, nested and "
         "overlapping namespaces), direct store.bind, qname/curie/compute_qname(_strict)/n3/expand_curie, reset, Turtle and "
@@ -61,6 +61,7 @@ NS_FAMILIES = [
 ]
 LOCALS = ["x", "y1", "_z", "1a", "-d", "a.b", "a.", "é", "%20x", "(p)", "", "b/c", "b#c", "a·b", "٣x",
           "ǅ", "x́", "中", "a€b", "ⅷ", "xʰ", "aः", "-", "b", "a", "c/d/e", "_"]
+STRICT_HEAD = {"1a": "1", "٣x": "٣", "%20x": "%20"}
 PREFIX_POOL = ["a", "b", "c", "_a", "_b", "", "ns1", "ns2", "a1", "b1", "default1", "é", "x.y", "A", "default", "_a1"]
 SPECIAL_IRIS = [XMLNS + "a" + XMLNS + "b", "http://e.org/a b", "http://e.org/<x>", "", "/ab/-", "abc", XMLNS, XMLNS + "lang",
                 "http://e.org/a/b/c", "http://e.org/", "urn:x:y:z"]
@@ -90,9 +91,13 @@ def gen_case(rng, tier, i):
     vn = list(dict.fromkeys(vn))
     vp = rng.sample(PREFIX_POOL, rng.randint(2, 5))
     iris = []
-    for n in vn:
+    for n in list(vn):
         for _ in range(rng.randint(1, 3)):
-            iris.append(n + rng.choice(LOCALS))
+            loc = rng.choice(LOCALS)
+            iris.append(n + loc)
+            # locals that are not NCNames: compute_qname_strict splits later; make that namespace bindable too
+            if n and loc in STRICT_HEAD and rng.random() < 0.7:
+                vn.append(n + STRICT_HEAD[loc])
     for _ in range(rng.randint(0, 2)):
         iris.append(rng.choice(SPECIAL_IRIS))
     iris = list(dict.fromkeys(iris))
@@ -112,6 +117,10 @@ def gen_case(rng, tier, i):
     ops = []
     n_ops = rng.randint(3, 18 if bn != "rdflib" else 9)
     for _ in range(n_ops):
+        qs = [o for o in ops if o[0] in ("qname", "qstrict", "n3", "cq", "cqs", "curie")]
+        if qs and rng.random() < 0.12:
+            ops.append(list(rng.choice(qs)))  # ask again later: (q, bind, q) interleavings
+            continue
         kind = _w(rng, [("bind", 38), ("sbind", 3), ("qname", 12), ("cq", 9), ("cqs", 5), ("qstrict", 3), ("curie", 7),
                         ("n3", 6), ("expand", 4), ("reset", 3), ("parse", 4), ("parsexml", 2), ("ser", 4)])
         if kind == "bind":
@@ -130,11 +139,11 @@ def gen_case(rng, tier, i):
             ops.append(["reset", mgr()])
         elif kind == "parse":
             ps = [p for p in vp if p == "" or (p.isascii() and p.isalnum())] or ["t"]
-            ns = [n for n in vn if n] or ["http://e.org/"]
+            ns = [n for n in vn if ":" in n] or ["http://e.org/"]  # absolute: a relative one is resolved by the parser
             ops.append(["parse", mgr(), [[rng.choice(ps), rng.choice(ns)] for _ in range(rng.randint(1, 3))]])
         elif kind == "parsexml":
             ps = [p for p in vp if p != "" and " " not in p] or ["t"]
-            ns = [n for n in vn if n and n != XMLNS] or ["http://e.org/"]  # XML forbids declaring the xml namespace
+            ns = [n for n in vn if ":" in n and n != XMLNS] or ["http://e.org/"]  # XML forbids declaring the xml namespace
             d, seen = [], {"rdf"}
             for _ in range(rng.randint(0, 2)):
                 p = None if rng.random() < 0.3 else rng.choice(ps)
@@ -405,7 +414,7 @@ def run_impl(case):
             stats["err_" + out[4:]] = stats.get("err_" + out[4:], 0) + 1
             if kind in ("bind", "sbind", "minit", "parse", "parsexml", "reset", "ser") and not (
                     kind == "bind" and op[2] is not None and " " in op[2]):
-                viol.append(f"raises: step {k} {kind} raised {type(e).__name__}: {str(e)[:80]}")
+                viol.append(f"raises-{type(e).__name__}: step {k} {kind} raised {type(e).__name__}: {str(e)[:80]}")
         if kind not in ("bind", "sbind", "minit", "parse", "parsexml") and len(list(im.store.namespaces())) > before:
             stats["generated"] = stats.get("generated", 0) + 1
         _check_bij(im, case, k, viol)
@@ -476,6 +485,8 @@ def shrink(case):
             yield {**case, "ops": ops[:i] + [[op[0], 0] + op[2:]] + ops[i + 1:]}
         if op[0] in ("parse", "parsexml") and len(op[2]) > 1:
             for j in range(len(op[2])):
+                if op[0] == "parsexml" and op[2][j][0] == "rdf":
+                    continue  # the document needs its rdf: declaration
                 yield {**case, "ops": ops[:i] + [[op[0], op[1], op[2][:j] + op[2][j + 1:]]] + ops[i + 1:]}
     used = {x for op in ops for x in op if isinstance(x, str)} | {p for op in ops if op[0] in ("parse", "parsexml")
                                                                    for pn in op[2] for p in pn if isinstance(p, str)}
